@@ -590,6 +590,10 @@ def harnesses(tier):
     for key, (build, kind, dom, get) in TABLE().items():
         if kind == 'real' and _restricted(dom):
             add(h_numeric_nan, 'numeric_nan', dict(option=key), 'NaN as python float and numpy float')
+    import vchecks.c01 as c01
+    for cls in ('StringGrader', 'FormulaGrader'):
+        for pinned in ('absent', 'computed', True, False, 'partial'):
+            add(c01.h_pinned_ok, 'answer_ok_normalised', dict(cls=cls, pinned=pinned), 'canonical ok of a stored answer: explicit ok kept only at full credit; credit any real in [0,1]')
     for cls in ('FormulaGrader', 'NumericalGrader', 'MatrixGrader', 'SumGrader'):
         add(h_percent_strings, 'percent_strings', dict(cls=cls), '23 texts incl. zero, negative, malformed, padded', validate=False)
     for form in ('list', 'string', 'plain'):
